@@ -1,6 +1,7 @@
 package main
 
 import (
+	"flag"
 	"strings"
 
 	"verifharness/hx"
@@ -9,9 +10,11 @@ import (
 
 // the generic history loop of hx.RunHistories, plus branch-coverage counters
 func main() {
+	genesis := flag.Int("genesis", 0, "1: also generate the genesis round-trip ops `export` / `reimport` / `prep_reimport` (C12)")
 	o := hx.ParseOpts()
 	env := hx.NewEnv()
 	rn := service.New(env)
+	rn.Genesis = *genesis == 1
 	if o.Replay != "" {
 		hx.RunHistories(env, rn, o)
 		return
